@@ -15,6 +15,7 @@ EXPLANATION = (
     "SHUTDOWN — every loop in a task spawned by the manager polls the shutdown token, its JoinHandle is stored in a slot that "
     "stop() takes and awaits after cancelling; (5) NO-SEND-AFTER-STOP — the request sender refuses to send once the shutdown "
     "token is cancelled."
+    ' NO-SEND-AFTER-STOP also requires that no await point lies between the shutdown check and the transport send.'
 )
 NOT_DECIDED = "actual absence of deadlock / starvation under every schedule; the time bound of stop() itself (leave_network awaits one request timeout per connected peer, sequentially)"
 ASSUMPTIONS = ["tokio RwLock/Mutex are fair enough that an acyclic order suffices", "tokio::time::timeout fires"]
